@@ -40,6 +40,11 @@ type Store struct {
 	running bool
 	err     error
 
+	// flushLk serializes Flush calls. A Flush call that finds no outstanding
+	// work must not return while another call is still writing the work it
+	// has taken out of the pools.
+	flushLk sync.Mutex
+
 	rateLk      sync.RWMutex
 	flushRate   float64 // rate at which data can be flushed
 	burstRate   types.Work
@@ -688,6 +693,9 @@ func (s *Store) outstandingWork() bool {
 // Flush writes outstanding work and buffered data to the primary, index, and
 // freelist files. It then syncs these files to permanent storage.
 func (s *Store) Flush() error {
+	s.flushLk.Lock()
+	defer s.flushLk.Unlock()
+
 	lastFlush := time.Now()
 
 	s.rateLk.Lock()
